@@ -109,7 +109,8 @@ class Route:
                 # a filter may look ahead at the literal that follows (`path` does)
                 next_token = pattern_out.find('\r', cidx)
                 tail = pattern_out[cidx:next_token] if next_token >= 0 else pattern_out[cidx:]
-                assert f_in(prt + tail)[1]  # `pos` must be > 0 if match
+                # (a filter may accept the empty text: what tells a match from a mismatch is the value, not `pos`)
+                assert f_in(prt + tail)[0] is not None
             ret.append(prt)
 
         if clen:
